@@ -128,6 +128,9 @@ impl Obs {
     pub fn staker(&self) -> String {
         self.cfg_str("native_chain_config", "staker_address")
     }
+    pub fn monitors(&self) -> Vec<String> {
+        self.cfg.get("monitors").and_then(|x| x.as_array()).map(|a| a.iter().map(|x| x.as_str().unwrap_or("").to_string()).collect()).unwrap_or_default()
+    }
     pub fn collector(&self) -> String {
         self.cfg_str("native_chain_config", "reward_collector_address")
     }
